@@ -59,7 +59,7 @@ class C01(core.Prop):
     def shapes(self, tier):
         out = []
         if tier == 'quick':
-            mols, max_frag, max_pair, nopt, cap = pl.MOLS_SMALL, 3, 2, 2, 12
+            mols, max_frag, max_pair, nopt, cap = pl.MOLS_SMALL + ['c1ccc2ccccc2c1'], 3, 2, 2, 12       # + one fused aromatic system
         else:
             mols, max_frag, max_pair, nopt, cap = pl.MOLS_SMALL + pl.MOLS_MEDIUM + pl.MOLS_LARGE, 4, 3, 4, 60
         for smi in mols:
